@@ -49,6 +49,10 @@ func (c *MetricStatSlot) OnEntryBlocked(_ *base.EntryContext, _ *base.BlockError
 func (c *MetricStatSlot) OnCompleted(ctx *base.EntryContext) {
 	res := ctx.Resource.Name()
 	err := ctx.Err()
+	if getBreakerRuleOfResource(res) == nil {
+		// no outlier rule for the resource (it may have been removed while the request ran): nothing to record
+		return
+	}
 	nodeBreakers := getNodeBreakersOfResource(res)
 	if address, ok := ctx.GetPair("address").(string); !ok || address == "" {
 		logging.Warn("[Outlier] Failed to get valid address", "resourceName", res)
@@ -58,6 +62,10 @@ func (c *MetricStatSlot) OnCompleted(ctx *base.EntryContext) {
 			nodeBreakers = getNodeBreakersOfResource(res)
 		}
 		breaker := nodeBreakers[address]
+		if breaker == nil {
+			// the rule was removed between the check above and here
+			return
+		}
 		breaker.OnRequestComplete(ctx.Rt(), err)
 		if err == nil {
 			recycler := getRecyclerOfResource(res)
